@@ -199,6 +199,33 @@ func VP_SCALE_chain() {
 	if res2 != nil {
 		vpCheckAccessors(src, res2)
 		vpAssert(res2.Bounds() == image.Rect(0, 0, w*2, h*3), "bounds of the second round")
+		// the second round enlarges the IMAGE it was given (factor 2, no horizontal margin, h rows of
+		// vertical margin), not whatever that image was made from
+		// default fill of the second round: the background of the image being scaled if THAT exposes a
+		// colour scheme (the library's scaled wrappers do not: then white, as the property words it)
+		var fill2 color.Color = color.White
+		if v, ok := res.(BarcodeColor); ok {
+			fill2 = v.ColorScheme().Background
+		}
+		x, y := vpInt("cx"), vpInt("cy")
+		vpAssume(x >= 0 && x < 2*w && y >= 0 && y < 3*h)
+		got := res2.At(x, y)
+		ok := false
+		for k := 0; k < 2; k++ {
+			ly := h / 2
+			if k == 1 {
+				ly = (h + 1) / 2
+			}
+			var want color.Color = fill2
+			if y >= ly && y < ly+2*h {
+				want = res.At(x/2, (y-ly)/2)
+			}
+			ok = ok || got == want
+		}
+		vpAssert(ok, "the second round shows the first round's image enlarged by its own factor, centred")
 	}
+	// a request smaller than the scaled image it is given is an error, whatever the original size was
+	res3, err3 := Scale(res, w-1, h)
+	vpAssert(err3 != nil && res3 == nil, "a request narrower than the image to be scaled is refused")
 	vpCover("reached", true)
 }
